@@ -55,7 +55,7 @@ def cases(tier, rng):
     from . import extract
     elems, _mods = extract.element_table()
     last = ["0", "0.", "0°", "5.", ".5", ".", "°", "1.5", "10", "00", "0.0", "1°2", "5°", "\n", " ", "1\n", "+\n", "\n\n",
-            "`a`", "`a", "‛ab", "‛a", "\\a", "«a«", "»a»", "⁺a", "#c\n", "→a", "←a", "→", "k", "∆", "ø", "Þ", "¨",
+            "`a`", "`a", "‛ab", "‛a", "\\a", "«a«", "»a»", "«a\\«", "»\\»", "«\\«", "»a\\»", "`a\\``", "«a\\", "»\\", "⁺a", "#c\n", "→a", "←a", "→", "k", "∆", "ø", "Þ", "¨",
             "v+", "₌++", "≬+++", "ß+", "&+", "~+", "⁽+", "ƒ+", "ɖ+", "‡++", "₍++", "¨=+", "x", "X", "n"]
     last += list(dict.fromkeys(e["key"] for e in elems))
     for tok in dict.fromkeys(last):
